@@ -310,8 +310,8 @@ func liftWeightedSum(c *Ctx, fd *ast.FuncDecl, p *packages.Package, strParam typ
 		if a.Obj == acc && a.Tok == token.ADD_ASSIGN && a.Loop == 1 {
 			okc := false
 			for _, cd := range a.Conds {
-				if cd.op == token.GEQ && !cd.neg {
-					if z, ok := cd.r.isConst(); ok && z.Sign() == 0 {
+				if l, _, strict, ok := cd.lessForm(); ok && !strict { // 0 <= i
+					if z, ok := l.isConst(); ok && z.Sign() == 0 {
 						okc = true
 					}
 				}
@@ -424,7 +424,7 @@ func checkMod10(c *Ctx, r *Report) {
 					if as, ok := st.(*ast.AssignStmt); ok && as.Tok == token.DEFINE {
 						sx.stmt(as)
 					}
-					if st.End() > call.Pos() {
+					if !wholeBefore(st, call) {
 						break
 					}
 				}
@@ -1101,8 +1101,8 @@ func checkCode93Checksum(c *Ctx, r *Report) {
 		// direction: from the last character before the check position down to 0
 		dirOK := false
 		if inc, ok := loop.Post.(*ast.IncDecStmt); ok && inc.Tok == token.DEC {
-			if be, ok := loop.Cond.(*ast.BinaryExpr); ok && be.Op == token.GEQ {
-				if z, ok := constInt(p, be.Y); ok && z == 0 {
+			if be, ok := loop.Cond.(*ast.BinaryExpr); ok && be.Op == token.LEQ { // 0 <= i (comparisons are canonicalised at load time)
+				if z, ok := constInt(p, be.X); ok && z == 0 {
 					dirOK = true
 				}
 			}
@@ -1169,7 +1169,7 @@ func checkCode93Checksum(c *Ctx, r *Report) {
 			if ok {
 				appended := false
 				ast.Inspect(where.Body, func(n ast.Node) bool {
-					if as, isA := n.(*ast.AssignStmt); isA && as.Tok == token.ADD_ASSIGN && as.Pos() > calls[0].End() && as.End() < calls[1].Pos() {
+					if as, isA := n.(*ast.AssignStmt); isA && as.Tok == token.ADD_ASSIGN && as.Pos() > calls[0].Pos() && !containsNode(as, calls[0]) && wholeBefore(as, calls[1]) {
 						if identObj(p, as.Lhs[0]) == identObj(p, calls[1].Args[0]) && identObj(p, calls[0].Args[0]) == identObj(p, calls[1].Args[0]) {
 							appended = true
 						}
@@ -1227,7 +1227,8 @@ func checkCode93Checksum(c *Ctx, r *Report) {
 			s := c.newSymExec(p)
 			for _, st := range fd.Body.List {
 				if as, isA := st.(*ast.AssignStmt); isA && as.Tok == token.DEFINE {
-					if _, isCall := as.Rhs[0].(*ast.CallExpr); !isCall || exprString(as.Rhs[0]) == "len(result)" {
+					call, isCall := as.Rhs[0].(*ast.CallExpr)
+					if !isCall || (isBuiltin(typeutil.Callee(p.TypesInfo, call), "len") && len(call.Args) == 1 && identObj(p, call.Args[0]) == paramObjs(p, fd)[0]) {
 						s.stmt(as)
 					}
 				}
